@@ -21,11 +21,50 @@ def _calls(f, name):
 
 
 def tdftype_primitives(prog: Program, rep, rule="primitive-codec"):
+    """The numeric field codec, decided on path summaries (every way each method can return, locals substituted, same-class
+    expression methods such as nBytes(n) expanded) and integer polynomials - not on the spelling of the statements."""
+    from .facts import inline_self_calls, path_returns, return_leaves
+    from .sym import Ctx, to_poly
+    from .poly import Poly
+
     c = prog.need_cls("TdfType", "tdfTypes")
+    ctx = Ctx(prog, c.module, c)
     n = 0
 
     def need(name):
         return prog.need_method(c, name)
+
+    ITEM = to_poly(ast.parse("self.btype.itemsize", mode="eval").body, ctx)
+
+    def size_is(expr, count):
+        """is the byte count `expr` equal to count*itemsize (count: Poly)"""
+        e = inline_self_calls(prog, c, expr)
+        try:
+            p = to_poly(e, ctx)
+        except AnalysisError:
+            return False
+        return p is not None and p == ITEM * count
+
+    def npoly(name):
+        return to_poly(ast.Name(id=name, ctx=ast.Load()), ctx)
+
+    def none_test(guards, name):
+        """True: the path is taken only when <name> is None; False: only when it is not None; None: undetermined"""
+        res = None
+        for t, pol in guards:
+            if isinstance(t, ast.UnaryOp) and isinstance(t.op, ast.Not):
+                t, pol = t.operand, not pol
+            if isinstance(t, ast.Compare) and len(t.ops) == 1 and norm(t.left) == name and isinstance(t.comparators[0], ast.Constant) and t.comparators[0].value is None:
+                if isinstance(t.ops[0], (ast.Is, ast.Eq)):
+                    res = pol
+                elif isinstance(t.ops[0], (ast.IsNot, ast.NotEq)):
+                    res = not pol
+        return res
+
+    def stream_read_size(call, stream):
+        if isinstance(call, ast.Call) and isinstance(call.func, ast.Attribute) and call.func.attr == "read" and norm(call.func.value) == stream and len(call.args) == 1:
+            return call.args[0]
+        return None
 
     # read: frombuffer with the codec's own dtype
     f = need("read")
@@ -35,34 +74,103 @@ def tdftype_primitives(prog: Program, rep, rule="primitive-codec"):
         rep.ok(rule, "TdfType.read = np.frombuffer(data, dtype=self.btype)")
     else:
         rep.fail(rule, MOD, "TdfType.read", f.node, "read does not decode with np.frombuffer(..., dtype=self.btype): the on-disk type of every field changes", construct="TdfType.read")
-    # bread: reads itemsize (single, item [0]) or n*itemsize bytes
+
+    # bread: itemsize bytes -> element 0 when n is None; n*itemsize bytes -> the array otherwise
     f = need("bread")
     n += 1
-    reads = [x for x in walk_no_nested(f.node) if isinstance(x, ast.Call) and isinstance(x.func, ast.Attribute) and x.func.attr == "read" and norm(x.func.value) == f.params[0]]
-    sizes = sorted(norm(x.args[0]).replace(" ", "") for x in reads if x.args)
+    stream = f.params[0]
     npar = f.params[1] if len(f.params) > 1 else "n"
-    want = sorted(["self.btype.itemsize", f"{npar}*self.btype.itemsize"])
-    alt = sorted(["self.btype.itemsize", f"self.btype.itemsize*{npar}"])
-    single_ok = any(isinstance(r.value, ast.Subscript) and norm(r.value.slice) == "0" for r in _ret(f))
-    if sizes in (want, alt) and single_ok:
+    problems = []
+    seen = {True: 0, False: 0}
+    for guards, leaf, pe in return_leaves(f.node):
+        single = none_test(guards, npar)
+        if leaf is None:
+            problems.append("a path returns nothing")
+            continue
+        inner, indexed = leaf, False
+        if isinstance(inner, ast.Subscript) and norm(inner.slice) == "0":
+            inner, indexed = inner.value, True
+        size = None
+        if isinstance(inner, ast.Call) and norm(inner.func) == "self.read" and len(inner.args) == 1:
+            size = stream_read_size(inner.args[0], stream)
+        if size is None:
+            problems.append(f"`{norm(leaf)}` is not self.read({stream}.read(<size>))")
+            continue
+        if single is None:
+            problems.append(f"`{norm(leaf)}` is returned on a path that does not depend on `{npar} is None`")
+        elif single:
+            seen[True] += 1
+            if not indexed:
+                problems.append("the single-item path returns the 1-element array, not element 0")
+            if not size_is(size, Poly.const(1)):
+                problems.append(f"the single-item path reads `{norm(size)}` bytes, not itemsize")
+        else:
+            seen[False] += 1
+            if indexed:
+                problems.append("the n-item path returns element 0 only")
+            if not size_is(size, npoly(npar)):
+                problems.append(f"the n-item path reads `{norm(size)}` bytes, not {npar}*itemsize")
+    if not seen[True] or not seen[False]:
+        problems.append("no single-item / n-item distinction on `n is None`")
+    if not problems:
         rep.ok(rule, "TdfType.bread reads itemsize bytes (item [0]) or n*itemsize bytes", nontrivial=True)
     else:
-        rep.fail(rule, MOD, "TdfType.bread", f.node, f"bread reads {sizes} bytes; expected itemsize for a single item (returning element 0) and n*itemsize for n items", construct="TdfType.bread")
-    # write: astype(base).tobytes() / np.array(data, dtype=base).tobytes()
+        rep.fail(rule, MOD, "TdfType.bread", f.node, "bread: " + "; ".join(problems[:3]), construct="TdfType.bread")
+
+    # write: every path returns <conversion to the base dtype>.tobytes()
     f = need("write")
     n += 1
-    txt = ast.unparse(f.node).replace(" ", "").replace("\n", "")
-    ok_arr = "data.astype(self.btype.base).tobytes()" in txt
-    ok_sca = "np.array(data,dtype=self.btype.base).tobytes()" in txt
-    if ok_arr and ok_sca:
-        rep.ok(rule, "TdfType.write = astype(base).tobytes() for arrays, np.array(x, dtype=base).tobytes() for scalars")
+    dpar = f.params[0] if f.params else "data"
+    problems = []
+    nleaf = 0
+    for guards, leaf, pe in return_leaves(f.node):
+        nleaf += 1
+        if not (isinstance(leaf, ast.Call) and isinstance(leaf.func, ast.Attribute) and leaf.func.attr == "tobytes" and not leaf.args):
+            problems.append(f"`{norm(leaf) if leaf is not None else None}` is not <array>.tobytes()")
+            continue
+        x = leaf.func.value
+        is_arr = None
+        for t, pol in guards:
+            if isinstance(t, ast.UnaryOp) and isinstance(t.op, ast.Not):
+                t, pol = t.operand, not pol
+            if isinstance(t, ast.Call) and norm(t.func) == "isinstance" and len(t.args) == 2 and norm(t.args[0]) == dpar and norm(t.args[1]) in ("np.ndarray", "numpy.ndarray"):
+                is_arr = pol
+        conv = None
+        if isinstance(x, ast.Call) and isinstance(x.func, ast.Attribute) and x.func.attr == "astype" and norm(x.func.value) == dpar and x.args:
+            conv = ("astype", x.args[0])
+        elif isinstance(x, ast.Call) and norm(x.func) in ("np.array", "np.asarray", "numpy.array", "numpy.asarray") and x.args and norm(x.args[0]) == dpar:
+            dt = next((k.value for k in x.keywords if k.arg == "dtype"), x.args[1] if len(x.args) > 1 else None)
+            conv = ("array", dt)
+        if conv is None or conv[1] is None or norm(conv[1]) != "self.btype.base":
+            problems.append(f"`{norm(x)}` is not a conversion of the data to the codec's base dtype (self.btype.base)")
+        elif conv[0] == "astype" and is_arr is not True:
+            problems.append("astype is applied to data not known to be an ndarray")
+    if nleaf == 0:
+        problems.append("no return")
+    if not problems:
+        rep.ok(rule, "TdfType.write: every path returns <data converted to self.btype.base>.tobytes()")
     else:
-        rep.fail(rule, MOD, "TdfType.write", f.node, "write no longer serialises through the codec's base dtype (astype(self.btype.base).tobytes())", construct="TdfType.write")
+        rep.fail(rule, MOD, "TdfType.write", f.node, "write no longer serialises through the codec's base dtype: " + "; ".join(problems[:2]), construct="TdfType.write")
+
+    def stream_writes(f):
+        """per non-raising path: the list of <stream>.write(arg) argument expressions"""
+        out = []
+        for pe in path_returns(f.node):
+            if pe.kind == "raise":
+                continue
+            ws = []
+            for e in pe.effects:
+                for x in ast.walk(e):
+                    if isinstance(x, ast.Call) and isinstance(x.func, ast.Attribute) and x.func.attr == "write" and norm(x.func.value) == f.params[0]:
+                        ws.append(x.args[0] if x.args else None)
+            out.append(ws)
+        return out
+
     # bwrite: file.write(self.write(data))
     f = need("bwrite")
     n += 1
-    ws = [x for x in walk_no_nested(f.node) if isinstance(x, ast.Call) and isinstance(x.func, ast.Attribute) and x.func.attr == "write" and norm(x.func.value) == f.params[0]]
-    if len(ws) == 1 and norm(ws[0].args[0]).replace(" ", "") == f"self.write({f.params[1]})":
+    paths = stream_writes(f)
+    if paths and all(len(ws) == 1 and ws[0] is not None and norm(ws[0]).replace(" ", "") == f"self.write({f.params[1]})" for ws in paths):
         rep.ok(rule, "TdfType.bwrite writes exactly write(data)")
     else:
         rep.fail(rule, MOD, "TdfType.bwrite", f.node, "bwrite does not write exactly self.write(data)", construct="TdfType.bwrite")
@@ -71,7 +179,10 @@ def tdftype_primitives(prog: Program, rep, rule="primitive-codec"):
     n += 1
     sk = [x for x in walk_no_nested(f.node) if isinstance(x, ast.Call) and isinstance(x.func, ast.Attribute) and x.func.attr == "seek"]
     npar = f.params[1] if len(f.params) > 1 else "n"
-    if len(sk) == 1 and norm(sk[0].args[0]).replace(" ", "") in (f"{npar}*self.btype.itemsize", f"self.btype.itemsize*{npar}") and len(sk[0].args) > 1 and norm(sk[0].args[1]) == "1":
+    whence = None
+    if len(sk) == 1:
+        whence = sk[0].args[1] if len(sk[0].args) > 1 else next((k.value for k in sk[0].keywords if k.arg == "whence"), None)
+    if len(sk) == 1 and sk[0].args and size_is(sk[0].args[0], npoly(npar)) and whence is not None and norm(whence) in ("1", "os.SEEK_CUR", "io.SEEK_CUR", "SEEK_CUR"):
         rep.ok(rule, "TdfType.skip seeks n*itemsize bytes forward (whence=1)")
     else:
         rep.fail(rule, MOD, "TdfType.skip", f.node, "skip is not a relative seek of n*itemsize bytes", construct="TdfType.skip")
@@ -81,20 +192,28 @@ def tdftype_primitives(prog: Program, rep, rule="primitive-codec"):
     # pad / bpad
     f = need("pad")
     n += 1
-    r = _ret(f)
     npar = f.params[0] if f.params else "n"
-    if len(r) == 1 and norm(r[0].value).replace(" ", "") in (f"b'\\x00'*({npar}*self.btype.itemsize)", f"b'\\x00'*(self.btype.itemsize*{npar})"):
+    leaves = return_leaves(f.node)
+
+    def zero_times(e, count):
+        if isinstance(e, ast.BinOp) and isinstance(e.op, ast.Mult):
+            for a, b in ((e.left, e.right), (e.right, e.left)):
+                if isinstance(a, ast.Constant) and a.value == b"\x00" and size_is(b, count):
+                    return True
+        return False
+
+    if leaves and all(leaf is not None and zero_times(leaf, npoly(npar)) for _, leaf, _ in leaves):
         rep.ok(rule, "TdfType.pad = n*itemsize zero bytes")
     else:
-        rep.fail(rule, MOD, "TdfType.pad", f.node, f"pad returns `{norm(r[0].value) if r else None}`, not n*itemsize zero bytes", construct="TdfType.pad")
+        rep.fail(rule, MOD, "TdfType.pad", f.node, f"pad returns `{norm(leaves[0][1]) if leaves and leaves[0][1] is not None else None}`, not n*itemsize zero bytes", construct="TdfType.pad")
     d = f.defaults().get(npar)
     if d is None or norm(d) != "1":
         rep.fail(rule, MOD, "TdfType.pad", f.node, "default item count of pad is not 1", construct="TdfType.pad default")
     f = need("bpad")
     n += 1
-    ws = [x for x in walk_no_nested(f.node) if isinstance(x, ast.Call) and isinstance(x.func, ast.Attribute) and x.func.attr == "write"]
     npar = f.params[1] if len(f.params) > 1 else "n"
-    if len(ws) == 1 and norm(ws[0].args[0]).replace(" ", "") == f"self.pad({npar})":
+    paths = stream_writes(f)
+    if paths and all(len(ws) == 1 and ws[0] is not None and (norm(ws[0]).replace(" ", "") in (f"self.pad({npar})", f"self.pad(n={npar})") or zero_times(inline_self_calls(prog, c, ws[0]), npoly(npar))) for ws in paths):
         rep.ok(rule, "TdfType.bpad writes pad(n)")
     else:
         rep.fail(rule, MOD, "TdfType.bpad", f.node, "bpad does not write exactly self.pad(n)", construct="TdfType.bpad")
@@ -147,14 +266,13 @@ def string_codec(prog: Program, rep, rule="string-codec", with_nul_cut=True):
                 rep.fail(rule, MOD, f"BTSString.{mname}", c, f"decode uses errors={norm(errs)}: stored text is altered on read")
     # bread delegates to read(): it must not decode (or cut) on its own
     br = prog.need_method(cls, "bread")
-    fw = [c for c in walk_no_nested(br.node) if isinstance(c, ast.Call) and norm(c.func) == "BTSString.read"]
-    own = [c for c in walk_no_nested(br.node) if isinstance(c, ast.Call) and isinstance(c.func, ast.Attribute) and c.func.attr in ("decode", "split", "rstrip", "strip", "partition")]
+    from .strings import bread_delegates
     rets = [s_ for s_ in walk_no_nested(br.node) if isinstance(s_, ast.Return)]
-    if fw and not own and len(rets) == 1 and rets[0].value is fw[0] and len(fw[0].args) >= 2 and norm(fw[0].args[0]) == br.params[1] \
-            and isinstance(fw[0].args[1], ast.Call) and norm(fw[0].args[1].func) == f"{br.params[0]}.read" and [norm(a) for a in fw[0].args[1].args] == [br.params[1]]:
+    if bread_delegates(prog):
         rep.ok(rule, "BTSString.bread = BTSString.read(size, file.read(size)): one place cuts and decodes", nontrivial=True)
     else:
         rep.fail(rule, MOD, "BTSString.bread", rets[0] if rets else br.node, "bread no longer returns BTSString.read(size, file.read(size), ...): the stream path decodes/cuts on its own (bytes after the terminator can reach the codec)")
+    fw = [c for c in walk_no_nested(br.node) if isinstance(c, ast.Call) and norm(c.func) in ("BTSString.read", "cls.read")]
     if fw and (any(k.arg == "encoding" and norm(k.value) == "encoding" for k in fw[0].keywords) or (len(fw[0].args) > 2 and norm(fw[0].args[2]) == "encoding")):
         rep.ok(rule, "BTSString.bread forwards its encoding to read()")
     elif fw:
